@@ -218,6 +218,61 @@ def run_single(segs, prog, dc, expected, chunked):
     return None
 
 
+# mixed programs: a generator API consumed for k pieces and left suspended (still referenced), then another API
+# reads the rest - "peek at the first pieces, then hand the response to something else"
+MIXED_FIRST = [("stream", a) for a in (1, 2, 3, 7)] + [("read_chunked", a) for a in (1, 2, 3, 7)]
+MIXED_REST = [("stream", 3), ("stream", None), ("read_chunked", 2), ("read_chunked", None), ("read", None), ("read", 2), ("read1", 3),
+              ("iter", None)]
+MIXED = [(f, k, rest) for f in MIXED_FIRST for k in (1, 2) for rest in MIXED_REST]
+
+
+def run_mixed(segs, prog, dc, expected, chunked):
+    first, k, rest = prog
+    if (first[0] == "read_chunked" or rest[0] == "read_chunked") and not chunked:
+        return "skip"
+    if rest[0] == "iter" and not dc:
+        return "skip"
+    try:
+        r, net, conn = open_response(segs, decode_content=dc)
+        g1 = r.stream(first[1], decode_content=dc) if first[0] == "stream" else r.read_chunked(first[1], decode_content=dc)
+        parts = []
+        for _ in range(k):
+            try:
+                parts.append(next(g1))
+            except StopIteration:
+                break
+        k1 = len(parts)
+        if rest[0] == "stream":
+            parts += list(r.stream(rest[1], decode_content=dc))
+        elif rest[0] == "read_chunked":
+            parts += list(r.read_chunked(rest[1], decode_content=dc))
+        elif rest[0] == "iter":
+            parts += list(r)
+        elif rest[1] is None:
+            parts.append(do_call(r, rest, dc))
+        else:
+            for _ in range(len(expected) + 50):
+                d = do_call(r, rest, dc)
+                if not d:
+                    break
+                parts.append(d)
+            else:
+                return Bad("no-termination", "%r never returned b''" % (rest,), "end of body", None)
+        if any(p == b"" for p in parts[:k1]) or (rest[0] in ("stream", "read_chunked", "iter") and any(p == b"" for p in parts[k1:])):
+            return Bad("empty-piece", "b'' yielded", "never", None)
+        got = b"".join(parts)
+        del g1
+    except Bad as b:
+        return b
+    except SimStall as e:
+        raise HarnessError("SimStall %s" % e)
+    except Exception as e:  # noqa: BLE001
+        return Bad("exception", "%s: %s" % (type(e).__name__, str(e)[:160]), "no exception on a well-formed response", None)
+    if got != expected:
+        return Bad("content-mismatch", _describe(got, expected), "len %d" % len(expected), None)
+    return None
+
+
 def call_shape(prog):
     def one(c):
         k, n = c
@@ -256,6 +311,18 @@ def _task(t):
         else:
             acc.outcomes["ok-seq-%d" % len(prog)] += 1
     if with_single:
+        for prog in MIXED:
+            b = run_mixed(segs, prog, dc, expected, chunked)
+            if b == "skip":
+                continue
+            acc.n += 1
+            acc.counters["mixed_programs"] += 1
+            if b is not None:
+                sig = dict(base_sig, calls=["%s-%d-pieces" % (prog[0][0], prog[1]), "then-" + prog[2][0] + ("" if prog[2][1] is not None else "()")])
+                acc.violation(b.clause, sig, {"spec": spec, "mixed": [list(prog[0]), prog[1], list(prog[2])]}, observed=b.observed, expected=b.expected)
+                acc.outcomes["bad:" + b.clause] += 1
+            else:
+                acc.outcomes["ok-mixed"] += 1
         for prog in SINGLE:
             if prog[0] == "iter" and not dc:
                 continue  # __iter__ always decodes; with decoding off there is no explicit-decode_content form of it
@@ -334,6 +401,11 @@ def replay(case):
         prog = [tuple(c) for c in case["prog"]]
         b = run_seq(segs, prog, dc, expected, 7 if spec[0] < 5000 else 1000)
         shape = call_shape(prog)
+    elif "mixed" in case:
+        m = case["mixed"]
+        prog = (tuple(m[0]), m[1], tuple(m[2]))
+        b = run_mixed(segs, prog, dc, expected, spec[2][0] == "chunked")
+        shape = ["%s-%d-pieces" % (prog[0][0], prog[1]), "then-" + prog[2][0] + ("" if prog[2][1] is not None else "()")]
     else:
         prog = tuple(case["single"])
         b = run_single(segs, prog, dc, expected, spec[2][0] == "chunked")
